@@ -46,6 +46,12 @@ type qspec struct {
 	SQL     string
 	Items   []item // select items (model fields), without _having
 	Having  *item  // the _having field
+	// simple HAVING `<name> <op> <const>` over a SELECTED output column: the implementation-only
+	// oracle 'rows of the HAVING-free query whose output value satisfies the predicate' applies
+	HavCol  string
+	HavOp   string
+	HavC    float64
+	NoHavSQL string // the same query without its HAVING clause
 	Mem     bool
 	WhereC  int // -1 none
 	Kind    string
@@ -60,6 +66,7 @@ type qspec struct {
 
 // genOpts steers genQuery.
 type genOpts struct {
+	NoShadow   bool   // never let an alias shadow a table column
 	Where      string // forced WHERE text ("" = the generator's own choice)
 	NoWhere    bool   // no WHERE at all
 	RichWhere  bool   // the generator may choose from extraWhere as well
@@ -132,6 +139,7 @@ func genQuery(r *hk.Rng, s *dbk.Schema, now time.Time, o genOpts) *qspec {
 		return k
 	}
 	var sel []string
+	var shadow *item // a select item whose alias shadows a table column
 	selectAll := r.Chance(1, 5)
 	if selectAll {
 		sel = []string{"*"}
@@ -203,6 +211,40 @@ func genQuery(r *hk.Rng, s *dbk.Schema, now time.Time, o genOpts) *qspec {
 			q.Items = append(q.Items, item{Name: a.Name, Node: a.Node, SQL: a.Name})
 			sel = append(sel, a.Name)
 		}
+		// an alias that SHADOWS a table column (`SELECT f0 / 2 AS f0`): later references to the
+		// name - here: HAVING - mean the selected output expression (sql.go selectClause.addField).
+		// The shadowing item is made the last one so that no other select item is affected.
+		if !o.NoShadow && r.Chance(1, 3) {
+			last := len(q.Items) - 1
+			for j := last; j >= 0; j-- {
+				it := q.Items[j]
+				if it.SQL == it.Name || !strings.HasSuffix(it.SQL, " AS "+it.Name) {
+					continue // a plain column
+				}
+				var free []dbk.FieldDef
+				for _, f := range all {
+					used := false
+					for _, x := range q.Items {
+						if x.Name == f.Name {
+							used = true
+						}
+					}
+					if !used && binOK(f.Node) {
+						free = append(free, f)
+					}
+				}
+				if len(free) == 0 {
+					break
+				}
+				f := free[r.Intn(len(free))]
+				it.SQL = strings.TrimSuffix(it.SQL, " AS "+it.Name) + " AS " + f.Name
+				it.Name = f.Name
+				q.Items = append(append(q.Items[:j:j], q.Items[j+1:]...), it)
+				sel = append(append(sel[:j:j], sel[j+1:]...), it.SQL)
+				shadow = &q.Items[len(q.Items)-1]
+				break
+			}
+		}
 	}
 	text := "SELECT " + strings.Join(sel, ", ") + " FROM " + s.Table
 	// time range
@@ -263,21 +305,43 @@ func genQuery(r *hk.Rng, s *dbk.Schema, now time.Time, o genOpts) *qspec {
 	if len(gb) > 0 {
 		text += " GROUP BY " + strings.Join(gb, ", ")
 	}
-	if r.Chance(1, 5) {
-		if o.RichHaving {
+	// what a name means in HAVING: the table column, unless a select item shadows it
+	resolve := func(f dbk.FieldDef) *gen.Node {
+		if shadow != nil && shadow.Name == f.Name {
+			return shadow.Node
+		}
+		return f.Node
+	}
+	if r.Chance(1, 5) || (shadow != nil && r.Chance(1, 2)) {
+		q.NoHavSQL = text
+		if o.RichHaving && !(shadow != nil && r.Chance(1, 2)) {
 			var ops []operand
 			for _, f := range all {
-				ops = append(ops, operand{f.Name, f.Node})
+				ops = append(ops, operand{f.Name, resolve(f)})
 			}
 			h, htext := genHaving(r, ops)
 			q.Having = h
 			text += " HAVING " + htext
 		} else {
 			a := tfb()
+			if shadow != nil && r.Chance(2, 3) {
+				for _, f := range all {
+					if f.Name == shadow.Name {
+						a = f
+					}
+				}
+			}
 			c := float64(r.Range(0, 4))
 			op := hk.Pick(r, []string{">", "<=", "="})
-			q.Having = &item{Name: "_having", Node: &gen.Node{Kind: "bin", Name: op, Kids: []*gen.Node{a.Node, {Kind: "const", Const: c}}}}
+			q.Having = &item{Name: "_having", Node: &gen.Node{Kind: "bin", Name: op, Kids: []*gen.Node{resolve(a), {Kind: "const", Const: c}}}}
 			text += fmt.Sprintf(" HAVING %s %s %v", a.Name, op, c)
+			for _, x := range q.Items {
+				// (not for SELECT *: without HAVING such a query is passed through ungrouped and
+				// unwindowed, so the two results differ by expired periods, not by the predicate)
+				if !selectAll && x.Name == a.Name && tolFor(x.Node) == 0 {
+					q.HavCol, q.HavOp, q.HavC = a.Name, op, c
+				}
+			}
 		}
 	}
 	q.SQL = text
@@ -675,12 +739,19 @@ func (c *caseCtx) submit(q *qspec, pre func(pq *sql.Query) bool) submitted {
 	}
 	if !ok {
 		ctx.Res.Hit("query-field-mismatch")
-		ctx.Res.Note("field mismatch for %s: real %v err %v want %v", q.SQL, realFields, ferr, func() (o []string) {
+		wants := func() (o []string) {
 			for _, w := range want {
 				o = append(o, w.Name+" "+w.Node.Build().String())
 			}
 			return
-		}())
+		}()
+		ctx.Res.Note("field mismatch for %s: real %v err %v want %v", q.SQL, realFields, ferr, wants)
+		// the parser resolved the select list / HAVING to other expressions than the SQL text
+		// means (names resolve to table columns unless a select alias shadows them): the tie
+		// between the generated query and the model's field list is broken
+		ctx.Res.Disagree(hk.Disagreement{Kind: "model-vs-impl", Case: map[string]interface{}{"engine": "query", "sql": q.SQL, "table": s.SQL()},
+			Impl: fmt.Sprint(realFields, ferr), Model: wants, Detail: "field resolution: select list / HAVING resolved differently from the query text's meaning", Index: c.idx})
+		c.havingOracle(q)
 		return submitted{}
 	}
 	// summary for the model, taken from the REAL parser's output
@@ -719,7 +790,74 @@ func (c *caseCtx) submit(q *qspec, pre func(pq *sql.Query) bool) submitted {
 		c.propFail = append(c.propFail, pf{"C04", fmt.Sprintf("probe changed after query %q: %s", q.SQL, d)})
 	}
 	_ = s
+	if qerr == nil {
+		c.havingOracleRows(q, rows)
+	}
 	return submitted{ok: true, pq: pq, rows: rows, err: qerr}
+}
+
+// havingOracle / havingOracleRows: C08 in the property's own words, on the implementation alone - "a
+// query with HAVING returns exactly those rows of the HAVING-free query whose output values
+// satisfy the predicate" - for HAVING `<selected column> <op> <const>`.  Rows of the HAVING query
+// that the HAVING-free query does not have at all are left to the empty-bucket-row finding.
+func (c *caseCtx) havingOracle(q *qspec) {
+	if q.HavCol == "" || q.NoHavSQL == "" {
+		return
+	}
+	_, rows, err := c.db.Query(q.SQL, q.Mem, 0)
+	if err == nil {
+		c.havingOracleRows(q, rows)
+	}
+}
+
+func (c *caseCtx) havingOracleRows(q *qspec, hrows []dbk.FlatRow) {
+	if q.HavCol == "" || q.NoHavSQL == "" {
+		return
+	}
+	col := -1
+	for j, it := range q.Items {
+		if it.Name == q.HavCol {
+			col = j
+		}
+	}
+	if col < 0 {
+		return
+	}
+	_, base, err := c.db.Query(q.NoHavSQL, q.Mem, 0)
+	if err != nil {
+		return
+	}
+	c.ctx.Res.Hit("having-oracle")
+	pred := func(v float64) bool {
+		switch q.HavOp {
+		case ">":
+			return v > q.HavC
+		case "<=":
+			return v <= q.HavC
+		}
+		return v == q.HavC
+	}
+	got := map[string][]float64{}
+	for _, r := range hrows {
+		got[rowKey(r.Key, r.TS)] = r.Values
+	}
+	for _, r := range base {
+		if col >= len(r.Values) {
+			return
+		}
+		k := rowKey(r.Key, r.TS)
+		hv, in := got[k]
+		want := pred(r.Values[col])
+		if want != in {
+			c.propFail = append(c.propFail, pf{"C08", fmt.Sprintf("HAVING %s %s %v: row %s of the HAVING-free query has %s = %v, so it must%s be returned, but it is%s (query %q)",
+				q.HavCol, q.HavOp, q.HavC, k, q.HavCol, r.Values[col], map[bool]string{true: "", false: " not"}[want], map[bool]string{true: "", false: " not"}[in], q.SQL)})
+			return
+		}
+		if in && fmt.Sprint(hv) != fmt.Sprint(r.Values) {
+			c.propFail = append(c.propFail, pf{"C08", fmt.Sprintf("HAVING changes the values of row %s: %v vs %v (query %q)", k, hv, r.Values, q.SQL)})
+			return
+		}
+	}
 }
 
 // querySummary renders what the model needs to know of a parsed query; plain = every GROUP BY
